@@ -285,6 +285,17 @@ func wrap(value string) string {
 	return value
 }
 
+// hashMethodOnValue returns whether the Hash method of the type is declared on the value and not on the pointer.
+func hashMethodOnValue(typ *types.Named) bool {
+	for i := 0; i < typ.NumMethods(); i++ {
+		if meth := typ.Method(i); meth.Name() == "Hash" {
+			_, onPointer := meth.Type().(*types.Signature).Recv().Type().(*types.Pointer)
+			return !onPointer
+		}
+	}
+	return false
+}
+
 func hasHashMethod(typ *types.Named) bool {
 	for i := 0; i < typ.NumMethods(); i++ {
 		meth := typ.Method(i)
@@ -365,6 +376,10 @@ func (g *gen) value(fieldName string, fieldType types.Type) (string, error) {
 		ref := typ.Elem()
 		if named, ok := ref.(*types.Named); ok {
 			if hasHashMethod(named) {
+				if hashMethodOnValue(named) {
+					// the method is called on what the pointer points to: a nil pointer hashes like every nil pointer
+					return fmt.Sprintf("func() uint64 {\nif %[1]s == nil {\nreturn 0\n}\nreturn uint64(%[2]s.Hash())\n}()", fieldName, wrap(fieldName)), nil
+				}
 				return fmt.Sprintf("uint64(%s.Hash())", wrap(fieldName)), nil
 			}
 		}
